@@ -9,30 +9,92 @@ Local Open Scope N_scope.
    code as it is.  Each witness below was replayed on the real library under ASan. *)
 Theorem synth_numa_memmove_refuted :
   exists s, nul_terminated s /\ parse Cur s = Fault FLevel.
-Proof. exists (desc w_memmove). exact memmove_refuted. Qed.
+Proof. exists (desc w_memmove). apply memmove_refuted. reflexivity. Qed.
 Print Assumptions synth_numa_memmove_refuted.
 
 Theorem synth_intlv_loops_refuted :
   exists s, nul_terminated s /\ parse Cur s = Fault FLoops.
-Proof. exists (desc w_loops). exact loops_refuted. Qed.
+Proof. exists (desc w_loops). apply loops_refuted. reflexivity. Qed.
 
 Theorem synth_type_match_refuted :
   exists s, nul_terminated s /\ parse Cur s = Fault FLit.
-Proof. exists (desc w_e0). exact type_match_refuted. Qed.
+Proof. exists (desc w_e0). apply type_match_refuted. reflexivity. Qed.
 
 Theorem synth_uninit_arity_refuted :
   exists s, nul_terminated s /\ parse Cur s = Fault FUninit.
-Proof. exists (desc w_uninit). exact uninit_refuted. Qed.
+Proof. exists (desc w_uninit). apply uninit_refuted. reflexivity. Qed.
 
 Theorem synth_width_wraparound_refuted :
   exists s, nul_terminated s /\ parse Cur s = Fault FDiv.
-Proof. exists (desc w_div). exact div_refuted. Qed.
+Proof. exists (desc w_div). apply div_refuted. Qed.
 
 (* the memmove witness is in the excluded class, one level fewer is accepted,
    and the fixed statement accepts the witness with all 128 entries used *)
 Example memmove_class_inhabited : memmove_class Cur (desc w_memmove).
-Proof. exact memmove_witness_in_class. Qed.
+Proof. apply memmove_witness_in_class. Qed.
 Example synth_125_levels_accepted : exists sy, parse Cur (desc w_125) = Ret sy /\ lenl (sy_levels sy) = 127.
-Proof. exact below_boundary_ok. Qed.
+Proof. apply below_boundary_ok. Qed.
 Example synth_memmove_fixed_accepts : exists sy, parse Fixed (desc w_memmove) = Ret sy /\ lenl (sy_levels sy) = 128.
 Proof. exact memmove_fixed_ok. Qed.
+
+(* ---------------------------------------------------------------- *)
+(* Parser safety, for ALL NUL-terminated descriptions.               *)
+(* [upto_insert] is hwloc_backend_synthetic_init up to and including  *)
+(* the implicit NUMA-level insertion ([parse] = [upto_insert] then    *)
+(* [back], lemma parse_decomp): the parsing loop with attributes,     *)
+(* hwloc_type_sscanf, the sanity checks, default types, the memmove.  *)
+(* ---------------------------------------------------------------- *)
+
+(* The code as it is (any variant): no read outside the string, no fuel
+   exhaustion, no access outside level[0..MAX-1] -- except exactly the two
+   known classes. *)
+Theorem synth_parse_safe_partial : forall v s, nul_terminated s ->
+  match upto_insert v s with
+  | Ret (lv, count) => lenl lv = MAXD /\ 1 <= count <= MAXD
+  | Rej => True
+  | Fault f => (f = FLit /\ tm_ok v s = false) \/ (f = FLevel /\ fix_memmove v = false /\ memmove_class v s)
+  end.
+Proof. exact upto_insert_safe. Qed.
+Print Assumptions synth_parse_safe_partial.
+
+(* under the hypotheses excluding exactly those classes: no fault at all *)
+Corollary synth_parse_safe_partial_nofault : forall s, nul_terminated s ->
+  ~ memmove_class Cur s -> tm_ok Cur s = true ->
+  forall f, upto_insert Cur s <> Fault f.
+Proof.
+  intros s Hn Hc Ht f E. pose proof (upto_insert_safe Cur s Hn) as H. rewrite E in H.
+  destruct H as [[_ H]|[_ [_ H]]]; [congruence|contradiction].
+Qed.
+Example partial_hypotheses_met : nul_terminated (desc w_125) /\ ~ memmove_class Cur (desc w_125) /\ tm_ok Cur (desc w_125) = true.
+Proof.
+  split; [apply desc_nul_terminated; vm_compute; reflexivity|]. split; [|vm_compute; reflexivity].
+  intros H. apply memmove_class_b_complete in H. vm_compute in H. discriminate.
+Qed.
+
+(* the excluded class is exactly the set of descriptions that overflow *)
+Theorem synth_memmove_class_exact : forall s, nul_terminated s ->
+  (memmove_class Cur s <-> upto_insert Cur s = Fault FLevel).
+Proof.
+  intros s Hn. split; [apply memmove_class_overflows; [reflexivity|exact Hn]|].
+  intros E. pose proof (upto_insert_safe Cur s Hn) as H. rewrite E in H.
+  destruct H as [[H _]|[_ [_ H]]]; [discriminate|exact H].
+Qed.
+(* ... and the overflow is an overflow of the whole parser *)
+Theorem synth_memmove_class_parse : forall s, nul_terminated s -> memmove_class Cur s -> parse Cur s = Fault FLevel.
+Proof. intros s Hn Hc. apply upto_insert_fault_parse. apply memmove_class_overflows; [reflexivity|assumption..]. Qed.
+
+(* The code with the four fixes of /verif/patches/fix-C07-*.diff: full statement.
+   AFTER THE FIXES ARE COMMITTED TO /repo: set [Cur := Fixed] in Text/Synthetic.v;
+   this theorem then is synth_parse_safe for the code as it is. *)
+Theorem synth_parse_safe_fixed : forall s, nul_terminated s ->
+  match upto_insert Fixed s with
+  | Ret (lv, count) => lenl lv = MAXD /\ 1 <= count <= MAXD
+  | Rej => True
+  | Fault _ => False
+  end.
+Proof.
+  intros s Hn. pose proof (upto_insert_safe Fixed s Hn) as H.
+  destruct (upto_insert Fixed s) as [[lv c]| |f]; auto.
+  destruct H as [[_ H]|[_ [H _]]]; discriminate.
+Qed.
+Print Assumptions synth_parse_safe_fixed.
